@@ -504,16 +504,21 @@ def check_stall(scn, res):
 
         # producers feeding the victim (transitively upstream)
         ups, todo = set(), [victim]
+        ends = {}       # producer -> the endpoints of it that lead to the victim (a balanced publisher has one per branch)
 
         while todo:
-            for up, eph, _, _ in sources_of(fs[todo.pop()]):
-                if eph == 0 and up not in ups:
-                    ups.add(up)
-                    todo.append(up)
+            for up, eph, _, endpoint in sources_of(fs[todo.pop()]):
+                if eph == 0:
+                    ends.setdefault(up, set()).add(f'ipc://{endpoint}')
+
+                    if up not in ups:
+                        ups.add(up)
+                        todo.append(up)
 
         for up in sorted(ups):
             pubs = [(t, info[2]) for t, ev, label, info, seq in res.wire
-                    if ev == 'pub' and info[0] == 'pub' and info[1] == up and info[3] == '//' and (info[2] or 0) >= 0]
+                    if ev == 'pub' and info[0] == 'pub' and info[1] == up and info[3] == '//' and (info[2] or 0) >= 0
+                    and label.split('@', 1)[1] in ends[up]]
             during = [p for p in pubs if t0 < p[0] < t1]
             late   = [p for p in during if p[0] > t0 + C04_SETTLE]
 
